@@ -158,6 +158,8 @@ def run(ctx) -> None:
              "STRICTLY before the stage the run starts from: a placeholder that is not RUNNING is skipped by the graph when further "
              "iterations are instantiated, so freezing the placeholder of a loop that still iterates leaves 'latest' and 'represents' at the "
              "instance of the restart")
+    ctx.rule("C05.R12-memo-keys-cover-what-varies", "a local memo 'if K not in D: D[K] = f(args)' inside the unrolling functions (or a helper they define "
+             "and call once per string) mentions in K every argument of f that changes from one component to the next")
     ctx.rule("C05.R11-per-loop-state-is-keyed-by-the-loop", "a table that instantiate_dowhile_next_iteration keeps on the graph between calls is "
              "keyed by every field of the DoWhile document that the function's own labels use to name the loop (stage AND name): component names are "
              "unique within a stage only")
@@ -528,6 +530,33 @@ def run(ctx) -> None:
                construct="instantiate_dowhile_next_iteration: self.%s keyed by the loop's identity" % t.value.attr)
     ctx.ob("C05.R11-per-loop-state-is-keyed-by-the-loop", nxt, True, "%d tables kept on the graph by instantiate_dowhile_next_iteration inspected; loop identity fields %s"
            % (len(tables), sorted(identity)), construct="tables kept by instantiate_dowhile_next_iteration", trivial=True)
+
+    # ---------------- R12: local memos of the unrolling functions are keyed by everything that varies (seed C05-14) ----------------------
+    # "rewrite each distinct string just once": what a relative reference is rewritten to depends on the stage of the component that owns
+    # it, so a memo keyed by the string alone lets the component that comes first decide for every stage of the iteration
+    from vlib import state as _state12
+    n12_fn = n12 = 0
+    for q12, f12 in fl.functions.items():
+        if "." in q12 or not any(w in q12 for w in ("rewrite", "dowhile", "loop")):
+            continue
+        n12_fn += 1
+        units = [(f12, False)] + [(g, True) for g in ast.walk(f12) if isinstance(g, ast.FunctionDef) and g is not f12]
+        for (u, per_call) in units:
+            for (st_, table_, key_, missing_) in _state12.memo_key_gaps(u, params_vary=per_call):
+                if per_call and any(isinstance(a, ast.Assign) and any(isinstance(t, ast.Name) and t.id == table_ for t in a.targets) for a in source.walk_own(u)):
+                    continue        # the table is created inside the helper itself: it lives for one call
+                n12 += 1
+                ctx.analysed(f12)
+                ctx.ob("C05.R12-memo-keys-cover-what-varies", st_, not missing_,
+                       "%s: the memo %s[%s] is keyed by everything that varies" % (q12, table_, key_) if not missing_ else
+                       "%s remembers %s under the key %s although the call also depends on %s, which changes from one component to the next: the "
+                       "first owner of a reference text decides what every later identical text is rewritten to - with looped components of the same "
+                       "name in two stages of the loop, 'work:output' in the stage-1 consumer is wired to the stage-0 instance, silently"
+                       % (q12, short(st_.value, 50), key_, ", ".join(missing_)),
+                       construct="%s: %s[%s] <- key covers the varying arguments" % (q12, table_, key_))
+    ctx.ob("C05.R12-memo-keys-cover-what-varies", fl.func("rewrite_components"), True,
+           "%d unrolling functions inspected for local memos, %d found" % (n12_fn, n12), trivial=True, construct="unrolling functions: local memos")
+    ctx.require(n12_fn >= 3, "anchor missing: the module-level unrolling functions of flowir.py (found %d)" % n12_fn)
 
     # ---------------- R5 -------------------------------------------------------------------------------
     rar = fl.func("rewrite_all_references")
